@@ -182,6 +182,27 @@ def wrap_lock(lock, how):
     raise ValueError(how)
 
 
+# Callers differ in how they spell the same arguments: the sigflags hex in either case,
+# the sigfields in any insertion order; and they may call a builder or a validator
+# twice with the very same argument objects (a retry): the second result counts.
+ARG_STYLES = ['plain', 'plain', 'plain', 'upper_flags', 'reversed_sigfields', 'both']
+
+
+def styled_flags(flags: str, style: str) -> str:
+    return flags.upper() if style in ('upper_flags', 'both') else flags
+
+
+def styled_sigfields(sf: dict, style: str) -> dict:
+    keys = sorted(sf, reverse=style in ('reversed_sigfields', 'both'))
+    return {k: sf[k] for k in keys}
+
+
+def maybe_twice(twice, fn, *args, **kw):
+    if twice:
+        fn(*args, **kw)
+    return fn(*args, **kw)
+
+
 def in_form(script, how):
     from .seams import T
     if how == 'bytes':
